@@ -4,7 +4,7 @@ func init() {
 	register(&PropDef{
 		ID:          "C01",
 		Level:       "other",
-		Explanation: "The concurrency bound is decided as a set of inductive lemmas over single operations, each a shape of the code (their conjunction over histories is argued in DESIGN.md, not mechanised): ADMIT-GUARD — the start function is called only where the admission decision's value set is {Start}, and in the dequeue loop only over a decision taken in the same iteration; START-ONLY-IF-FREE — on every order type of its inputs the admission table yields Start only if running < concurrency; NO UNDERCOUNT — the counting function ranges over the pipeline's whole list and increments whenever started ∧ ¬completed ∧ ¬canceled (8-row table, implication); SLOT-END — only the completion handler marks a job completed, it is called only by the job's scheduling goroutine after Scheduler.Schedule returned, whose stage goroutines are WaitGroup-paired and waited for before every return; the cancel request marks only unstarted jobs canceled directly; REGISTERED-BEFORE-STARTED; decision and start lie in one lock region; NO LOST UPDATE on the wait list (a popped job cannot reappear and be started twice); NEVER UNLISTED — the retention decision table never removes a waiting or unfinished job from the list the count ranges over; RELOAD APPLIES — in package app every path of the reload function that finds the freshly loaded definitions unequal passes them to ReplaceDefinitions, and the baseline of that comparison is a variable that outlives the invocation and is set to the applied definitions (a changed limit is not silently ignored).",
+		Explanation: "The concurrency bound is decided as a set of inductive lemmas over single operations, each a shape of the code (their conjunction over histories is argued in DESIGN.md, not mechanised): ADMIT-GUARD — the start function is called only where the admission decision's value set is {Start}, and in the dequeue loop only over a decision taken in the same iteration; START-ONLY-IF-FREE — on every order type of its inputs the admission table yields Start only if running < concurrency; NO UNDERCOUNT — the counting function ranges over the pipeline's whole list and increments whenever started ∧ ¬completed ∧ ¬canceled (8-row table, implication); SLOT-END — only the completion handler marks a job completed, it is called only by the job's scheduling goroutine after Scheduler.Schedule returned, whose stage goroutines are WaitGroup-paired and waited for before every return; the cancel request marks only unstarted jobs canceled directly; REGISTERED-BEFORE-STARTED; decision and start lie in one lock region; NO LOST UPDATE on the wait list (a popped job cannot reappear and be started twice); NEVER UNLISTED — the retention decision table never removes a waiting or unfinished job from the list the count ranges over; RELOAD APPLIES — in package app every path of the reload function that finds the freshly loaded definitions unequal passes them to ReplaceDefinitions, and the baseline of that comparison is a variable that outlives the invocation and is set to the applied definitions (a changed limit is not silently ignored). RELOAD INSTALLS WHAT IT WAS GIVEN — the runner's reload has no effect but `defs = the argument` (nothing of the old definitions is carried over). UNDEFINED BUT RUNNING — the retention table keeps a job that is still running also when its pipeline is no longer defined (the pipeline can be defined again while it runs: finding D10, fixed).",
 		Trusted:     []string{"C13 (operations are atomic under the runner mutex)", "upstream taskctl runner executes a stage only inside Runner.Run"},
 		NotDecided:  []string{"joint sufficiency of the lemmas over arbitrary histories (paper argument)", "effects of lowering the limit on already running jobs (allowed by the statement)"},
 		Check: func(w *World, r *Report) {
@@ -39,7 +39,7 @@ func init() {
 	register(&PropDef{
 		ID:          "C07",
 		Level:       "other",
-		Explanation: "The numeric lower bound trusts time.AfterFunc; decided is what is armed and what is gated on it: a delayed job is never started by the request itself (admission table: delay>0 ∧ ¬ignore ⇒ ≠ Start on all order types; the accept function passes ignore=false); the timer is armed iff the job's own delay > 0, with the job's own StartDelay (taken from the definition at accept time) and a callback that addresses the job's own id; in the dequeue function every path to the start call takes the `head.startTimer == nil` edge; the timer is cleared only by the expiry handler or where the job leaves the list for good; the expiry handler clears and re-runs the dequeue (no second delay); under replace the previous job is marked canceled (hence refused by the start function), its slot is overwritten by the newest job at the last index; the retention decision keeps every waiting job on all order types of its inputs (the expiry handler finds the job by id, so a delayed job removed from the index would never start). SLOT ACCOUNTING — the running predicate is exactly started ∧ ¬completed ∧ ¬canceled (8-row table): a slot is taken neither longer nor shorter than the job runs, so an expired delay is honoured as soon as a slot is really free. TIMER USE — every Stop/Reset on a job's start timer read from the field lies behind the `startTimer != nil` edge of a test of the same job (the field is nil for jobs without delay: an inverted guard panics under the lock when such a job is replaced).",
+		Explanation: "The numeric lower bound trusts time.AfterFunc; decided is what is armed and what is gated on it: a delayed job is never started by the request itself (admission table: delay>0 ∧ ¬ignore ⇒ ≠ Start on all order types; the accept function passes ignore=false); the timer is armed iff the job's own delay > 0, with the job's own StartDelay (taken from the definition at accept time) and a callback that addresses the job's own id; in the dequeue function every path to the start call takes the `head.startTimer == nil` edge; the timer is cleared only by the expiry handler or where the job leaves the list for good; the expiry handler clears and re-runs the dequeue (no second delay); under replace the previous job is marked canceled (hence refused by the start function), its slot is overwritten by the newest job at the last index; the retention decision keeps every waiting job on all order types of its inputs (the expiry handler finds the job by id, so a delayed job removed from the index would never start). SLOT ACCOUNTING — the running predicate is exactly started ∧ ¬completed ∧ ¬canceled (8-row table): a slot is taken neither longer nor shorter than the job runs, so an expired delay is honoured as soon as a slot is really free. TIMER USE — every Stop/Reset on a job's start timer read from the field lies behind the `startTimer != nil` edge of a test of the same job (the field is nil for jobs without delay: an inverted guard panics under the lock when such a job is replaced). DEQUEUE IGNORES THE CURRENT DELAY — for a queued job whose timer is not pending the dequeue asks the admission question with the delay ignored, whatever delay the job or the current definition states.",
 		Trusted:     []string{"time.AfterFunc does not fire early", "C13"},
 		NotDecided:  []string{"the numeric bound ≥ d", "that the newest job eventually runs (liveness)"},
 		Check: func(w *World, r *Report) {
@@ -73,7 +73,7 @@ func init() {
 	register(&PropDef{
 		ID:          "C15",
 		Level:       "other",
-		Explanation: "Agreement of sibling code paths, decided from the source: SCHEDULABLE — for every action constant the admission function can return, the schedulable predicate answers true exactly when the accept function does not reject that action, and both ask the same admission question (pipeline, ignore=false); RUNNING — the reported flag is ∃ job in the pipeline's list with the running predicate, whose 8-row table equals started ∧ ¬completed ∧ ¬canceled, and the admission count uses the same predicate; REGISTERED — every success return of the accept function passes the stores into both indexes, and jobs are deleted from the id index only on the retention path; ORDER — the job list comparator is newest-first, and every slice filled while ranging over a map in an API-reported order is sorted before its first use (no map-order leak); the job's task list is built by a plain function of the definition's tasks looked up in the accept function (not a method of the runner: the order cannot depend on the runner's history). NEVER UNLISTED — the retention decision table (the only path that deletes from the indexes) never removes a waiting or running job: what is reported running stays reported.",
+		Explanation: "Agreement of sibling code paths, decided from the source: SCHEDULABLE — for every action constant the admission function can return, the schedulable predicate answers true exactly when the accept function does not reject that action, and both ask the same admission question (pipeline, ignore=false); RUNNING — the reported flag is ∃ job in the pipeline's list with the running predicate, whose 8-row table equals started ∧ ¬completed ∧ ¬canceled, and the admission count uses the same predicate; REGISTERED — every success return of the accept function passes the stores into both indexes, and jobs are deleted from the id index only on the retention path; ORDER — the job list comparator is newest-first, and every slice filled while ranging over a map in an API-reported order is sorted before its first use (no map-order leak); the job's task list is built by a plain function of the definition's tasks looked up in the accept function (not a method of the runner: the order cannot depend on the runner's history). NEVER UNLISTED — the retention decision table (the only path that deletes from the indexes) never removes a waiting or running job: what is reported running stays reported. TIMES — every store to Created/Start/End of a job is the clock read at that transition (time.Now(), possibly rounded) or the same field of the stored job: nothing else is ordered with the other two.",
 		Trusted:     []string{"C13", "sort.* sorts"},
 		NotDecided:  []string{"numeric order of timestamps (created ≤ start ≤ end)", "that the dependency sort is topological"},
 		Check: func(w *World, r *Report) {
